@@ -1,7 +1,11 @@
 import H3.Drv.Util
 import H3.Model.Varint
 import H3.Spec.Framing
-/-! Driver engine `iso` (C07): the non-interference oracle computed from the scenario line.
+import H3.Model.Iso
+import H3.Model.Qpack
+/-! Driver engine `iso` (C07).  Spec half: the non-interference oracle computed from the scenario
+    line.  Model half: the `H3.Iso` product machine run on the scenario (section "the model" below);
+    the two halves share only the parsing helpers and the line-based choice of the output format.
 
     A scenario runs k concurrent requests; the line marks each stream healthy or faulted by what
     the peer does to it (RESET, STOP_SENDING, a validly encoded but malformed head, an oversized
@@ -122,9 +126,8 @@ def renderFaultSpec (server : Bool) (f : Fault) : String :=
   | .finFirst => if server then "[stream:H3_REQUEST_INCOMPLETE]" else "*"
   | .none => "[]"
 
-def handle : List String → String
-  | "iso" :: role :: cfg :: ops =>
-    let server := role == "server"
+/-- the specification's answer, computed from the line alone -/
+def specOf (server : Bool) (cfg : String) (ops : List String) : String :=
     let mfs := (cfg.splitOn ",").findSome? (fun t => if t.startsWith "mfs=" then ((t.drop 4).toString).toNat? else none)
     let strms := ops.foldl (stepOp server) []
     let strms := strms.filter (fun s => s.sid % 4 == 0)
@@ -138,9 +141,248 @@ def handle : List String → String
         let callRes := calls.map (fun c => c ++ "=ok")
         let all := [head, s!"rm=body:{bodyOf server s}:none"] ++ callRes
         s!"q{s.sid}:" ++ ",".intercalate all ++ s!";tx={expectedTx server ops s.sid}" ++ (if s.finished then ",fin" else "")
-      | f => s!"q{s.sid}:fault:{renderFaultSpec server f}:conn=0")
-    let out := " ".intercalate (parts ++ ["closed=[]", "driver=ok"])
-    out ++ " ## " ++ out
+      | f => s!"q{s.sid}:fault:{renderFaultSpec server f}:conn=0 *")
+    " ".intercalate (parts ++ ["closed=[]", "driver=ok"])
+
+/-! ### the model: the scenario run through `H3.Iso`
+
+The scenario interpreter's tasks are mirrored the way `ReqRecv.Sim` does it: every request has a
+task that executes its commands in order; a command whose call is `Pending` stays in flight and is
+polled again when the next peer event for that stream arrives; commands posted meanwhile wait in
+the task's mailbox.  Each poll is one `H3.Iso.step`; after every op the driver is polled
+(`H3.Iso.drive`).  The header oracle is the QPACK model (`H3.Qpack.recvSite`: limit, decoding
+errors) plus the one validity rule the generator's malformed head breaks (upper-case letter in a
+field name, RFC 9114 §4.2); the 431 is what `H3.Qpack.sendSite` writes under the default limit. -/
+
+open H3.Iso in
+def hdrOracle (site : H3.Qpack.RecvSite) (mfs : Nat) (b : List Nat) : HClass :=
+  match H3.Qpack.recvSite site mfs b with
+  | .fields fs => if fs.any (fun f => f.name.any (fun c => decide (65 ≤ c ∧ c ≤ 90))) then .malformed else .ok
+  | .tooBig _ _ _ => .tooBig
+  | .connError _ => .qpack
+
+open H3.Iso in
+def cfgOf (server : Bool) (mfs : Nat) : Cfg :=
+  { role := if server then .server else .client
+    hdr := { head := hdrOracle (if server then .serverRequest else .clientResponse) mfs
+             trailer := hdrOracle (if server then .serverTrailers else .clientTrailers) mfs }
+    resp431 := match H3.Qpack.sendSite none H3.Qpack.response431 with
+      | .written b => some b
+      | _ => none }
+
+def codeName (c : Nat) : String :=
+  if c == H3.Gen.Consts.CODE_H3_MESSAGE_ERROR then "H3_MESSAGE_ERROR"
+  else if c == H3.Gen.Consts.CODE_H3_REQUEST_INCOMPLETE then "H3_REQUEST_INCOMPLETE"
+  else toString c
+
+def renderRes : H3.ReqRecv.Res → String
+  | .head _ => "ok"
+  | .data b => "data:" ++ toHex b
+  | .end_ => "end"
+  | .trailers _ => "trailers"
+  | .noTrailers => "none"
+  | .errConn c => s!"err:conn:{c}"
+  | .errStream c => s!"err:stream:{codeName c}"
+  | .errReset c => s!"err:rterm:{c}"
+  | .pending => "PENDING"
+  | .panic => "PANIC"
+  | .invalid => "INVALID"
+
+def renderAns : H3.Iso.Ans → String
+  | .res r => renderRes r
+  | .tooBig => "err:toobig"
+
+structure Task where
+  sid : Nat
+  /-- command in flight: its name and its call -/
+  inflight : Option (String × H3.Iso.Call) := none
+  mailbox : List (String × H3.Iso.Call) := []
+  /-- `rm`: body bytes handed out so far -/
+  acc : List Nat := []
+  /-- completed commands `(name, result)`, oldest first -/
+  results : List (String × String) := []
+  /-- bytes arrived (the stream is listed even when no command completed) -/
+  seen : Bool := false
+
+def isPendingRes : H3.ReqRecv.Res → Bool
+  | .pending => true
+  | _ => false
+
+def isPendingAns : H3.Iso.Ans → Bool
+  | .res r => isPendingRes r
+  | .tooBig => false
+
+def dataOf (rs : List H3.ReqRecv.Res) : List Nat :=
+  rs.foldl (fun a r => match r with | .data d => a ++ d | _ => a) []
+
+/-- one poll of the command in flight: `none` = still pending (progress kept in `acc`) -/
+def pollCmd (t : Task) (o : H3.Iso.Obs) : Task × Option String :=
+  match o with
+  | .quiet => (t, some "?")
+  | .ok => (t, some "ok")
+  | .noHandle => (t, some "no-task")
+  | .ans a => if isPendingAns a then (t, none) else (t, some (renderAns a))
+  | .body rs tr =>
+    let acc := t.acc ++ dataOf rs
+    let t := { t with acc := acc }
+    match tr with
+    | some a =>
+      if isPendingAns a then (t, none)
+      else ({ t with acc := [] }, some s!"body:{toHex acc}:{renderAns a}")
+    | none =>
+      match rs.getLast? with
+      | some .pending => (t, none)
+      | some r => ({ t with acc := [] }, some s!"body:{toHex acc}:{renderRes r}")
+      | none => (t, none)
+
+/-- `body` polls get the fuel that bounds the run of the stream's receive half -/
+def withFuel (c : H3.Iso.Conn) (sid : Nat) : H3.Iso.Call → H3.Iso.Call
+  | .body _ => .body (H3.ReqRecv.fsFuel (c.get sid).rx.src)
+  | x => x
+
+/-- run the task until a command is pending or nothing is left to do -/
+def pump (cfg : H3.Iso.Cfg) : Nat → H3.Iso.Conn → Task → H3.Iso.Conn × Task
+  | 0, c, t => (c, t)
+  | n+1, c, t =>
+    match t.inflight with
+    | some (name, call) =>
+      let (c', o) := H3.Iso.step cfg c (t.sid, .call (withFuel c t.sid call))
+      let (t', r) := pollCmd t o
+      match r with
+      | none => (c', t')
+      | some res => pump cfg n c' { t' with inflight := none, results := t'.results ++ [(name, res)] }
+    | none =>
+      match t.mailbox with
+      | [] => (c, t)
+      | x :: rest => pump cfg n c { t with inflight := some x, mailbox := rest }
+
+structure MState where
+  conn : H3.Iso.Conn := {}
+  tasks : List Task := []
+  /-- client: number of requests created so far -/
+  created : Nat := 0
+
+def getTask (m : MState) (sid : Nat) : Task := (m.tasks.find? (·.sid == sid)).getD { sid := sid }
+def putTask (m : MState) (t : Task) : MState :=
+  if m.tasks.any (·.sid == t.sid) then { m with tasks := m.tasks.map (fun x => if x.sid == t.sid then t else x) }
+  else { m with tasks := m.tasks ++ [t] }
+
+def pumpTask (cfg : H3.Iso.Cfg) (m : MState) (t : Task) : MState :=
+  let (c, t') := pump cfg (2 * t.mailbox.length + 3) m.conn t
+  putTask { m with conn := c } t'
+
+def peerOp (cfg : H3.Iso.Cfg) (m : MState) (sid : Nat) (p : H3.Iso.Peer) (seen : Bool) : MState :=
+  if sid % 4 != 0 then m else
+  let c := (H3.Iso.step cfg m.conn (sid, .peer p)).1
+  let t := getTask m sid
+  pumpTask cfg { m with conn := c } { t with seen := t.seen || seen }
+
+def callOp (cfg : H3.Iso.Cfg) (m : MState) (sid : Nat) (name : String) (call : H3.Iso.Call) : MState :=
+  let t := getTask m sid
+  pumpTask cfg m { t with mailbox := t.mailbox ++ [(name, call)] }
+
+def blockOf (frameHex : String) : List Nat := (hexOf frameHex).drop 2
+
+def modelOp (server : Bool) (cfg : H3.Iso.Cfg) (m : MState) (op : String) : MState :=
+  let m' :=
+    if op.startsWith "snd.R" then
+      let sid := 4 * m.created
+      callOp cfg { m with created := m.created + 1 } sid "R" (.sendHead (blockOf goodReq))
+    else match op.toList with
+    | 's' :: rest =>
+      match numPrefix (String.ofList rest) with
+      | some (sid, r) =>
+        let b := hexOf ((r.drop 1).toString)
+        if b.isEmpty then m else peerOp cfg m sid (.chunk b) true
+      | none => m
+    | 'f' :: rest =>
+      match (String.ofList rest).toNat? with
+      | some sid => peerOp cfg m sid .fin false
+      | none => m
+    | 'r' :: rest =>
+      match numPrefix (String.ofList rest) with
+      | some (sid, r) => peerOp cfg m sid (.reset (((r.drop 1).toString).toNat?.getD 0)) false
+      | none => m
+    | 'x' :: rest =>
+      match numPrefix (String.ofList rest) with
+      | some (sid, r) => peerOp cfg m sid (.stop (((r.drop 1).toString).toNat?.getD 0)) false
+      | none => m
+    | 'q' :: rest =>
+      match numPrefix (String.ofList rest) with
+      | some (sid, r) =>
+        let cmd := (r.drop 1).toString
+        match cmd.splitOn ":" with
+        | ["res"] => callOp cfg m sid "res" .head
+        | ["rr"] => callOp cfg m sid "rr" .head
+        | ["rm"] => callOp cfg m sid "rm" (.body 0)
+        | ["sd", h] => callOp cfg m sid "sd" (.sendData (hexOf h))
+        | "sr" :: _ => callOp cfg m sid "sr" (.sendHead (blockOf goodResp))
+        | ["fi"] => callOp cfg m sid "fi" .finish
+        | _ => m
+      | none => m
+    | _ => m
+  let _ := server
+  { m' with conn := H3.Iso.drive m'.conn }
+
+def insertSorted (l : List String) (s : String) : List String :=
+  if l.contains s then l else (l.takeWhile (· < s)) ++ [s] ++ (l.dropWhile (· < s))
+
+/-- the error kinds of a result string, as `tools/props/c07.py` extracts them -/
+def errKinds (r : String) : List String × Bool :=
+  let conn := (r.splitOn "err:conn").length > 1
+  let pick (tag : String) : List String :=
+    match r.splitOn ("err:" ++ tag) with
+    | _ :: after :: _ =>
+      if tag == "toobig" then ["toobig"]
+      else [tag ++ String.ofList (after.toList.takeWhile (fun ch => ch.isAlphanum || ch == '_'))]
+    | _ => []
+  (if conn then [] else (pick "rterm:" ++ pick "stream:" ++ pick "toobig").take 1, conn)
+
+def renderTask (server : Bool) (faulted : Bool) (c : H3.Iso.Conn) (t : Task) : String :=
+  if faulted then
+    let (errs, conn) := t.results.foldl (fun (acc : List String × Bool) (x : String × String) =>
+      let (es, cn) := errKinds x.2
+      (es.foldl insertSorted acc.1, acc.2 || cn)) ([], false)
+    let r := c.get t.sid
+    s!"q{t.sid}:fault:[{",".intercalate errs}]:conn={if conn then 1 else 0} q{t.sid}:wire:tx={toHex r.snd.tx}" ++
+      (if r.snd.fin then ",fin" else "") ++
+      (match r.rx.env.rst with | some k => s!",rst={k}" | none => "") ++
+      (match r.rx.env.stop with | some k => s!",stop={k}" | none => "")
+  else
+    let show1 (x : String × String) : String := x.1 ++ "=" ++ x.2
+    let heads := (t.results.filter (fun x => x.1 == "res" || x.1 == "rr")).map show1
+    let rms := (t.results.filter (fun x => x.1 == "rm")).map show1
+    let others := (t.results.filter (fun x => x.1 != "res" && x.1 != "rr" && x.1 != "rm" && x.1 != "R")).map show1
+    let r := c.get t.sid
+    let extra := (match r.rx.env.rst with | some k => s!"rst={k}" | none => "") ++
+                 (match r.rx.env.stop with | some k => s!"stop={k}" | none => "")
+    let _ := server
+    s!"q{t.sid}:" ++ ",".intercalate (heads ++ rms ++ others) ++ s!";tx={toHex r.snd.tx}" ++
+      (if r.snd.fin then ",fin" else "") ++ (if extra == "" then "" else "," ++ extra)
+
+/-- the model's answer: the scenario run through the product machine -/
+def modelOf (server : Bool) (cfgs : String) (ops : List String) : String :=
+  let mfs := ((cfgs.splitOn ",").findSome? (fun t => if t.startsWith "mfs=" then ((t.drop 4).toString).toNat? else none)).getD
+    H3.Gen.Field.DEFAULT_MAX_FIELD_SECTION_SIZE
+  let cfg := cfgOf server mfs
+  let m := ops.foldl (modelOp server cfg) {}
+  -- which streams does the LINE fault? (decides the output format only, as in `c07.py`)
+  let mfsO := (cfgs.splitOn ",").findSome? (fun t => if t.startsWith "mfs=" then ((t.drop 4).toString).toNat? else none)
+  let strms := (ops.foldl (stepOp server) []).filter (fun s => s.sid % 4 == 0)
+  let isFaulted (sid : Nat) : Bool :=
+    match strms.find? (·.sid == sid) with
+    | some s => classify server mfsO s != .none
+    | none => false
+  let tasks := m.tasks.filter (fun t => t.sid % 4 == 0 && (t.seen || t.results.any (fun x => x.1 != "R")))
+  let tasks := tasks.foldl (fun acc t => (acc.takeWhile (·.sid < t.sid)) ++ [t] ++ (acc.dropWhile (·.sid < t.sid))) []
+  let parts := tasks.map (fun t => renderTask server (isFaulted t.sid) m.conn t)
+  let closed := ",".intercalate (m.conn.closed.map toString)
+  " ".intercalate (parts ++ [s!"closed=[{closed}]", if m.conn.closed.isEmpty then "driver=ok" else "driver=err"])
+
+def handle : List String → String
+  | "iso" :: role :: cfg :: ops =>
+    let server := role == "server"
+    modelOf server cfg ops ++ " ## " ++ specOf server cfg ops
   | _ => "bad-op"
 
 end H3.Drv.C07
